@@ -12,6 +12,7 @@
 #![allow(dead_code)]
 mod api;
 mod comp;
+mod cparse;
 mod ctx;
 mod gen;
 mod mon;
@@ -19,6 +20,7 @@ mod plain;
 mod rng;
 mod special;
 mod streams;
+mod wrap;
 
 use ctx::{Ctx, Tier};
 use serde_json::{json, Value};
